@@ -1075,7 +1075,12 @@ class Compiler:
                 return stmts
 
             def visit_TokenRef(self, node: TokenRef) -> ast.AST:
-                self.tokens.append((node.token.pos, len(node.token)))
+                # (positions refer to the text that was parsed, which
+                # the token knows: line endings may have been converted)
+                self.tokens.append((
+                    node.token.pos, len(node.token),
+                    getattr(node.token, 'source', None)
+                ))
                 assignment = ast.Assign(
                     [store("__token")],
                     ast.Constant(node.token.pos),
@@ -1086,8 +1091,9 @@ class Compiler:
 
         generator = Generator(module)
         tokens = [
-            Token(source[pos:pos + length], pos, source)
-            for pos, length in generator.tokens
+            Token((parsed or source)[pos:pos + length], pos,
+                  parsed or source)
+            for pos, length, parsed in generator.tokens
         ]
         token_map_def = "__tokens = {" + ", ".join("%d: %r" % (
             token.pos,
